@@ -276,7 +276,9 @@ func (r *c12ProgRun) outcome() string {
 var c12AddrRe = regexp.MustCompile(`0x[0-9a-fA-F]+`)
 
 func c12IsLimitMsg(s string) bool {
-	return strings.Contains(s, "stack overflow") || strings.Contains(s, "registry overflow")
+	// (the value stack being too small surfaces under several texts: from a push, from unpack's own
+	// room check, from resume's)
+	return strings.Contains(s, "stack overflow") || strings.Contains(s, "registry overflow") || strings.Contains(s, "too many results to unpack") || strings.Contains(s, "too many arguments to resume")
 }
 
 const c12CatchWrap = `
@@ -284,7 +286,7 @@ local _pcall, _xpcall, _resume, _type, _find = pcall, xpcall, coroutine.resume, 
 local function chk(ok, ...)
   if not ok then
     local m = ...
-    if _type(m) == "string" and (_find(m, "stack overflow", 1, true) or _find(m, "registry overflow", 1, true)) then __c12_hit() end
+    if _type(m) == "string" and (_find(m, "stack overflow", 1, true) or _find(m, "registry overflow", 1, true) or _find(m, "too many results to unpack", 1, true) or _find(m, "too many arguments to resume", 1, true)) then __c12_hit() end
   end
   return ok, ...
 end
